@@ -418,12 +418,15 @@ def search(ctx, v):
                 else:
                     L, E = rng.randint(1, 600), rng.choice([1, 2, 3, 5])
                 plan.append((mech, L, E, rng.choice([1.0, 3.0, 8.0])))
+    # every run: three small loaders trained by really iterating the private loader for the declared epochs (expected batch
+    # size 1: empty Poisson draws occur, and each of them is a noised, accounted step of the epoch)
+    plan = [(m, rng.choice([x for x in range(12, 41) if int(1 / (1 / x)) == x and int(3 / (1 / x)) == 3 * x]), 3, 3.0) for m in ("rdp", "gdp", "rdp")] + plan
     done = []
     for j, (mech, L, E, t) in enumerate(plan):
-        bs = rng.choice([1, 1, 2, 3])
+        bs = 1 if j < 3 else rng.choice([1, 1, 2, 3])
         extra = rng.randrange(bs)
         case = {"mech": mech, "L": L, "epochs": E, "target": t, "delta": rng.choice([1e-5, 1e-6]), "bs": bs, "extra": extra,
-                "real_loop": (j % 10 == 0 and L * E <= 400), "e2e": True, "drop_last": bs > 1 and rng.random() < 0.4}
+                "real_loop": ((j % 10 == 0 or j < 3) and L * E <= 400), "e2e": True, "drop_last": bs > 1 and rng.random() < 0.4}
         consistent = int(1 / (1 / L)) == L and int(E / (1 / L)) == E * L
         ctx.case(("e2e", mech, L, E, t), nontrivial=True, kind=f"e2e:{mech}:" + ("consistent" if consistent else "truncating"))
         ctx.count("search:end-to-end")
